@@ -334,7 +334,7 @@ def sorted_by_name(ex, eff, seq_t):
             if npar == 1:
                 el = ("sym", 10 ** 7, "elem")
                 keys = {o[1] for _, o in ex.apply_closure(clo, (el,), State()) if o[0] == "val"}
-                if keys != {("app", "tuple_field", (el, lit(0)))}:
+                if {_first(k) for k in keys} != {("app", "tuple_field", (el, lit(0)))}:
                     return False, "the sort key is %s, not the field name" % sorted(fmt_term(k)[:60] for k in keys)
             elif npar == 2:
                 a, bb = ("sym", 10 ** 7, "a"), ("sym", 10 ** 7 + 1, "b")
@@ -348,5 +348,81 @@ def sorted_by_name(ex, eff, seq_t):
     return True, "sorted by the field name before rendering"
 
 
+def _first(t):
+    """`pair.0` is spelled tuple_field(pair, 0) for a destructured closure parameter and field(pair, '0') for `p.0`"""
+    if isinstance(t, tuple) and t[:2] == ("app", "field") and t[2][1] == lit("0"):
+        return ("app", "tuple_field", (t[2][0], lit(0)))
+    return t
+
+
 def _is_cmp(t, x, y):
+    if isinstance(t, tuple) and t[:1] == ("app",) and len(t[2]) == 2:
+        t = (t[0], t[1], (_first(t[2][0]), _first(t[2][1])))
     return isinstance(t, tuple) and t[:1] == ("app",) and t[1].rsplit("::", 1)[-1] in ("cmp", "call:std::cmp::Ord::cmp") and len(t[2]) == 2 and t[2][0] == x and t[2][1] == y
+
+
+# ------------------------------------------------------------------ Pointer rendering, per kind
+
+class PC(Client):
+    name = "pointer-renderer"
+    inline_depth = 3
+
+    def no_inline(self, path):
+        return "evaluate_as_string" in path or path.endswith("Heap::dereference")
+
+
+def decide_pointer(fx, body):
+    """[(kind, ok, detail)] + guard row: `Pointer::evaluate_as_string…` executed once per kind of pointer"""
+    P = "bytecode::heap::Pointer"
+    rows = []
+    x = ("var", "x")
+    params = body["params"]
+    for variant in ("Null", "Integer", "Boolean", "Reference"):
+        selfv = ("ctor", P, variant, () if variant == "Null" else (("0", x),))
+        ex = Executor(fx, PC())
+        args = [selfv] + [("var", p.get("name") or "_") for p in params[1:]]
+        res = ex.run_body(body, args, State())
+        oks = [(s, o) for s, o in res if o[0] == "val" and isinstance(o[1], tuple) and (o[1][:1] == ("ok",) or o[1][:1] == ("fall",))]
+        fails = [(s, o) for s, o in res if not (o[0] == "val" and isinstance(o[1], tuple) and (o[1][:1] == ("ok",) or o[1][:1] == ("fall",)))]
+        if variant == "Null":
+            vals = {o[1] for s, o in oks}
+            ok = vals == {("ok", lit("null"))} and not fails
+            rows.append(("Pointer::Null", ok, "renders %s; S5: the text `null`" % sorted(fmt_term(v) for v in vals)))
+        elif variant in ("Integer", "Boolean"):
+            vals = {o[1] for s, o in oks}
+            ok = vals == {("ok", x)} and not fails
+            rows.append(("Pointer::%s" % variant, ok, "renders %s; S5: the payload's own to_string() (%s)" % (
+                sorted(fmt_term(v).replace("x", "<payload>") for v in vals), "decimal" if variant == "Integer" else "true/false")))
+        else:
+            good = bool(oks)
+            why = []
+            guard_ok = bool(oks)
+            for s, o in oks:
+                calls = [e for e in s.eff if e["k"] == "call"]
+                deref = [e for e in calls if e["args"][0][1].endswith("Heap::dereference") and len(e["args"]) == 3 and e["args"][2] == x]
+                rend = [e for e in calls if "evaluate_as_string" in e["args"][0][1]]
+                if len(deref) != 1 or len(rend) != 1:
+                    good = False
+                    why.append("%d dereference(s) of the index, %d rendering call(s)" % (len(deref), len(rend)))
+                    continue
+                d, r = deref[0], rend[0]
+                obj_ok = r["args"][1] in (("payload", d.get("res")), d.get("res"))
+                val_ok = o[1] in (r.get("res"), ("ok", ("payload", r.get("res"))))
+                if not (obj_ok and val_ok):
+                    good = False
+                    why.append("renders the dereferenced object: %s; returns that rendering unchanged: %s" % (obj_ok, val_ok))
+                # guard: entered before the rendering, left after it
+                guard = next((("var", p_.get("name")) for p_ in params[2:3]), None)
+                ins = [i for i, e in enumerate(s.eff) if e["k"] == "call" and len(e["args"]) == 3 and e["args"][1] == guard and e["args"][2] == x and
+                       e["args"][0][1].rsplit("::", 1)[-1] in ("push", "insert", "push_back")]
+                outs = [i for i, e in enumerate(s.eff) if e["k"] == "call" and len(e["args"]) >= 2 and e["args"][1] == guard and
+                        e["args"][0][1].rsplit("::", 1)[-1] in ("pop", "remove", "pop_back", "truncate", "swap_remove", "take")]
+                ri = s.eff.index(r)
+                if ins and not (outs and ins[0] < ri < outs[-1] and len(outs) >= len(ins)):
+                    guard_ok = False
+            cyc = any(any(e["k"] == "assume" and "contains(" in fmt_term(e["args"][0]) and e["args"][1] == TRUE for e in s.eff) for s, o in fails)
+            rows.append(("Pointer::Reference", good, "renders the dereferenced heap object and returns that text: %s%s" % (good, ("; " + "; ".join(sorted(set(why)))) if why else "")))
+            rows.append(("cycle guard is path-scoped (entered objects are left again)", guard_ok and cyc,
+                         "an index is put on the guard before its object is rendered and taken off afterwards on every successful path: %s; an index already on the guard fails: %s%s" % (
+                             guard_ok, cyc, "" if guard_ok else " — a visited-set rejects acyclic values that reach the same object twice (shared substructure must print)")))
+    return rows
